@@ -23,6 +23,7 @@ const VARIANTS: &[&str] = &[
     "approved-other-id",
     "approved-other-chain",
     "truncated-payload",
+    "approved-boundary-shifted",
     "conforming",
     "delivered-twice",
     "redelivered-after-reapproval",
@@ -76,7 +77,7 @@ pub fn run(ctx: &Ctx, rep: &mut Report) {
                     contract: app_sc.clone(),
                     payload_hash: keccak(&payload),
                 };
-                let mut order: Vec<&str> = VARIANTS[..7].to_vec();
+                let mut order: Vec<&str> = VARIANTS[..8].to_vec();
                 rng.shuffle(&mut order);
                 order.truncate(3 + rng.usize(5));
                 order.push("conforming");
@@ -126,6 +127,17 @@ pub fn run(ctx: &Ctx, rep: &mut Report) {
                             let mut a = conforming.clone();
                             a.message_id = did.clone();
                             a.source_chain = [chain.clone(), b"2".to_vec()].concat();
+                            approved = Some(a);
+                        }
+                        "approved-boundary-shifted" => {
+                            // approved for (chain + d + p, q), delivered as (chain, p + d + q): the
+                            // same bytes once chain and id are joined with a delimiter
+                            let d = *rng.pick(&[&b"_"[..], b"-", b":", b"/", b"\0", b"|", b""]);
+                            let p = b"part".to_vec();
+                            did = [p.clone(), d.to_vec(), fresh.clone()].concat();
+                            let mut a = conforming.clone();
+                            a.source_chain = [chain.clone(), d.to_vec(), p].concat();
+                            a.message_id = fresh.clone();
                             approved = Some(a);
                         }
                         "truncated-payload" => {
